@@ -297,8 +297,18 @@ def check_dependencies(ctx, db):
         ok = lp is not None and norm(lp.child('cond').text(ren)).endswith('< %s.count)' % arr)
         ctx.check(ok, 'R-AGG', qn + '/all-references', f.loc(), 'iterates over all of %s' % arr)
     f = db.fn('gdstk::Cell::get_raw_dependencies')
-    t = norm(clone.canon(f.body, f, ren=clone.Renamer(f, params_by_name=True)))
-    ok = re.search(r'if \(\(\$recursive && \((v\d+)->type == ReferenceType::Cell\)\)\)\n\s+\1->cell->get_raw_dependencies\(true, \$result\)', t) is not None
+    # the recursion through referenced cells runs exactly under (recursive, reference type == Cell), however the dispatch is written
+    cellv = tables.enum_values(db, 'gdstk::ReferenceType').get('Cell')
+    rk = 'v%d:%s' % (f.params[0]['d'], f.params[0]['n'])
+    recs = [c for c in f.walk() if c.k == 'CXXMemberCallExpr' and (c.callee or '') == 'gdstk::Cell::get_raw_dependencies']
+    ok = len(recs) == 1 and _strip_casts(recs[0].args[0]).k == 'CXXBoolLiteralExpr' and bool(_strip_casts(recs[0].args[0]).v)
+    if ok:
+        at = tables.path_atoms(recs[0])
+        obj = _strip_casts(recs[0].child('obj'))
+        base = lvalue_key(_strip_casts(obj.child('base'))) if obj.k == 'MemberExpr' and obj.n == 'cell' else None
+        need = {('true', rk, True), ('eq', base + '->type', cellv, True)} if base is not None else None
+        # anything else on the path may only exclude other values of the same tag (the `else` of an earlier arm)
+        ok = need is not None and need <= set(at) and all(a[0] == 'eq' and a[1] == base + '->type' and a[3] is False for a in set(at) - need)
     ctx.check(ok, 'R-SHAPE', 'gdstk::Cell::get_raw_dependencies/through-cells', f.loc(), 'raw dependencies are also gathered through referenced cells when recursive')
 
 
